@@ -676,6 +676,13 @@ def c06_family(tier):
     out[-1]['faults']['from_ms'] = 2000
     out[-1]['late_d1'] = True
 
+    # ... and later still: the time a free-running restarted source needs to count up to the consumer's id exceeds the recovery bound
+    fs = [src(N, period=20), sink('snk', ['src']), sink('lis', ['src?;main>x'])]
+    mk('chain2+listener-later/src', fs, ['src'], [0])
+    out[-1]['horizon_ms'] = 3040
+    out[-1]['faults']['from_ms'] = 3000
+    out[-1]['late_d1'] = True
+
     # ... the same with a graceful stop (CLOSE puts the consumers back into the 'new' handshake while the listener keeps the restarted
     # source busy publishing ids the synchronized consumer has long passed)
     fs = [src(N, period=20), sink('snk', ['src'], [('slow', 30)]), sink('lis', ['src?;main>x'])]
